@@ -26,7 +26,7 @@ def run(ctx):
     recs = IC.run_spec(ctx, "InterpScan", cfg)
     IC.replay(ctx, recs, "scan")
     if quick:
-        cfg = dict(lit=["x", "rb"], shapes=shapes[7:], contexts=["text", "sqattr", "comment"], maxparts=3, maxdol=2, maxstack=0)
+        cfg = dict(lit=["x", "rb"], shapes=shapes[7:], contexts=["text", "sqattr", "comment", "cdata"], maxparts=3, maxdol=2, maxstack=0)
         recs = IC.run_spec(ctx, "InterpScan2", cfg)
         IC.replay(ctx, recs, "scan2")
     # (ii) contexts x switch nestings
